@@ -21,12 +21,12 @@ import (
 
 type C05BigCase struct {
 	Backend string `json:"backend"`
-	N       int    `json:"n"`        // messages that pass through (enqueued, leased, acked)
-	Leased  int    `json:"leased"`   // messages left leased while the rest is settled
-	Late    int    `json:"late"`     // messages enqueued after that and never dequeued until the end
-	Release string `json:"release"`  // nack | nackb | expire
+	N       int    `json:"n"`       // messages that pass through (enqueued, leased, acked)
+	Leased  int    `json:"leased"`  // messages left leased while the rest is settled
+	Late    int    `json:"late"`    // messages enqueued after that and never dequeued until the end
+	Release string `json:"release"` // nack | nackb | expire
 	Batch   int    `json:"batch"`
-	Waves   int    `json:"waves"`    // the pass-through happens in this many enqueue/dequeue/ack waves
+	Waves   int    `json:"waves"` // the pass-through happens in this many enqueue/dequeue/ack waves
 }
 
 func genC05BigCase() *rapid.Generator[C05BigCase] {
